@@ -429,11 +429,12 @@ impl QueryEngine {
     pub async fn extract_time_range(&self, sql: &str) -> Result<TimeRange> {
         let df = self.plan_read_only(sql).await?;
         // Work on the analyzed and simplified plan: bounds written as TIMESTAMP '...'
-        // literals (casts) or relative to now() are plain literals there.
+        // literals (casts) or relative to now() are plain literals there. Only
+        // expression-level rules are applied: the full optimizer restructures the plan
+        // (e.g. it moves a comparison that occurs twice out of the filter into a
+        // projection), and a bound that is no longer in a filter would go unnoticed.
         let plan = self
-            .ctx
-            .state()
-            .optimize(df.logical_plan())
+            .simplify_for_bounds(df.logical_plan())
             .unwrap_or_else(|_| df.logical_plan().clone());
         let plan = &plan;
 
@@ -451,6 +452,27 @@ impl QueryEngine {
             min_time.unwrap_or(hour_ago),
             max_time.unwrap_or(now),
         ))
+    }
+
+    /// Type coercion plus expression simplification (constant folding, casts moved onto
+    /// literals), leaving the structure of the plan as written.
+    fn simplify_for_bounds(&self, plan: &LogicalPlan) -> Result<LogicalPlan> {
+        use datafusion::optimizer::optimizer::Optimizer;
+        use datafusion::optimizer::simplify_expressions::SimplifyExpressions;
+        use datafusion::optimizer::unwrap_cast_in_comparison::UnwrapCastInComparison;
+
+        let state = self.ctx.state();
+        let analyzed = state.analyzer().execute_and_check(
+            plan.clone(),
+            state.config_options(),
+            |_, _| {},
+        )?;
+        let optimizer = Optimizer::with_rules(vec![
+            Arc::new(SimplifyExpressions::new()),
+            Arc::new(UnwrapCastInComparison::new()),
+            Arc::new(SimplifyExpressions::new()),
+        ]);
+        Ok(optimizer.optimize(analyzed, &state, |_, _| {})?)
     }
 
     /// Recursively extract time bounds from a logical plan
